@@ -128,10 +128,21 @@ func scenarioC05(r *Run) {
 		// an establishment that is rejected after resources were taken
 		if r.Ch.Choose(4, "rejected-est") == 1 {
 			bad := g.Session(p, SessShape{UEAlloc: true, TEIDChoose: true})
-			if r.Ch.Choose(2, "rej-kind") == 0 {
+			switch rk := r.Ch.Choose(3, "rej-kind"); {
+			case rk == 0:
 				// a FAR without a usable apply action comes after valid PDRs
 				bad.FARs = append(bad.FARs, &FARSpec{ID: 7, Action: 0})
-			} else {
+			case rk == 2:
+				// everything parses, the address is taken, the datapath plug-in then
+				// refuses the rules: a port range too wide to be installed
+				sdf := &FlowSpec{Valid: true, Dir: "out", Proto: 17, UESide: "assigned", RemoteIP: ipU32(ip4("8.8.4.4")), RemoteLen: 32, HasPort: true, PortLo: 2000, PortHi: 2000 + uint16(300+r.Ch.Choose(3000, "too-wide")),
+					Text: ""}
+				sdf.Text = fmt.Sprintf("permit out udp from 8.8.4.4 %d-%d to assigned", sdf.PortLo, sdf.PortHi)
+				for _, x := range bad.PDRs {
+					x.SDF = sdf
+				}
+				r.Probe("establishment-refused-by-the-datapath-plug-in")
+			default:
 				// the PDR that asks for the UE address fails to parse after the
 				// address was taken: it names an application that is not provisioned
 				for _, x := range bad.PDRs {
@@ -449,6 +460,14 @@ func scenarioC05UP4(r *Run) {
 				v := &r.Violations[len(r.Violations)-1]
 				v.Msg = "[" + v.Sig + "] " + v.Msg
 				v.Sig = "up4-leftovers-of-establishment-refused-after-failed-write"
+				return
+			}
+			// what the PFCP layer took for the attempt is back as well
+			if st, _ := r.probeAgent(nil); st.poolHeld != len(r.LiveSessions()) {
+				r.Violate("C05", "ue-address-not-returned:refused-est", "%s: the pool holds %d address(es) for %d live session(s)", ctx, st.poolHeld, len(r.LiveSessions()))
+				return
+			} else if st.stored != len(r.LiveSessions()) {
+				r.Violate("C05", "session-record-left:refused-est", "%s: %d session record(s) stored for %d live session(s)", ctx, st.stored, len(r.LiveSessions()))
 				return
 			}
 			continue
